@@ -52,6 +52,7 @@ func c01Verify(ctx context.Context, carPath string, paths *IndexPaths, numTotal 
 		return c01ByBuilder[b]
 	}
 	cidIx, slotIx, sigIx := ixOf(paths.CidToOffsetAndSize), ixOf(paths.SlotToCid), ixOf(paths.SignatureToCid)
+	verifAssert(len(cidIx.kvs) >= 2 && len(slotIx.kvs) >= 1 && len(sigIx.kvs) >= 1 && len(c01SigExistsSeen) >= 1, "C01.verify: an index that index all reported lacks the entries of the CAR's objects")
 	tamper := verifChoice("tamper", 9)
 	switch tamper {
 	case 1: // an object's recorded offset is off by one
